@@ -14,15 +14,22 @@ THEOREMS = [P + t for t in (
     "first_neighbor_exact", "first_neighbor_total", "first_neighbor_nodup", "get_parent_unique",
     "two_hop_nodup", "second_components_spec",
     "two_hop_exact", "two_hop_total", "two_hop_counterexample", "two_hop_partial", "wf_build",
+    "two_hop_as_written_exact", "two_hop_selfloop_counterexample", "peer_counterexample", "nodecps_counterexample",
+    "hops_cutoff_irrelevant", "hops_full_statement", "hops_contract_graph_theoretic", "hops_answer_acyclic", "relink_replaces_relation",
+    "helper_constants", "link_cps_exact", "child_cps_exact", "node_cps_spec", "helpers_outside_domain",
     "shortest_path_sound", "shortest_path_empty_iff_unreachable", "shortest_path_minimal", "shortest_path_total",
     "hops_sound", "hops_minimal", "hops_empty_iff_none", "hops_total", "hops_list_semantics", "hops_foreign_hop_empty",
     "class_lookup_is_membership")]
 TRUSTED_BASE = [
     "gen/queryidioms.py: AST patterns of the three drop-list loops (which variable is appended), of the iterable of "
-    "_drop_edges_not_of_type (live view / snapshot) and of the replacement test in get_nodes_on_path_with_hops",
+    "_drop_edges_not_of_type (live view / snapshot) and of the replacement test in get_nodes_on_path_with_hops; the class gates "
+    "(`CLASS_X not in labels ... raise`) and REL_*/CLASS_* constants of the four derived helpers of ABCPropertyGraph, values from abc_property_graph_constants.py",
     "Model/Query.lean mirrors get_first_neighbor, get_first_and_second_neighbor, get_nodes_on_shortest_path, "
-    "get_nodes_on_path_with_hops and the mixin helpers by hand; checked differentially. Names are compared by string equality in the model; "
-    "generators use the library's own CLASS_*/REL_* constants and containment-related names (A/AB, x/xx, '', Link/CompositeLink)",
+    "get_nodes_on_path_with_hops, the mixin helpers and the gate of the derived helpers (labels = [Class], list membership) by hand; checked differentially. Class names, relation names, node ids and graph ids "
+    "are compared by string equality in the model; the generators draw all four from alphabets whose members contain / prefix / suffix one "
+    "another, differ only in letter case or surrounding white space, or are empty (the library's own CLASS_*/REL_* constants - Link/CompositeLink, "
+    "NetworkNode/CompositeNode - and A/AB, x/xx, has/Has/'has ', a/ab/abc/A/''), as names present in the graph and as query-only names, on both "
+    "in-memory stores; evidence counts the queries whose argument is related-but-unequal to a name the answer depends on (related-name:*)",
     "networkx is third-party and modelled, not verified: nx.shortest_path by a layered BFS proved correct in Lean "
     "(results compared by validity + length only: which shortest path networkx returns is unspecified), "
     "nx.all_simple_paths(cutoff) by a DFS enumeration proved sound and complete, nx.cycle_basis(G.subgraph(path)) == [] by "
@@ -41,7 +48,8 @@ RULE = ("histories: several wrapper objects per graph id, query / mutate through
         "first-neighbour, two-hop, shortest path (with and without relation), path-with-hops (hop lists, cut-offs), derived helpers; "
         "non-trivial = the answer is non-empty or the queried node has incident edges of >= 2 relations; "
         "distinct by (canonical target view, query); thorough adds every graph on <= 4 nodes over 2 relations x 2 classes (names x/xx, A/AB; <= 3 nodes also with the empty string and Link/CompositeLink) "
-        "up to isomorphism, and every graph on <= 3 nodes with self-loops, with all queries")
+        "up to isomorphism, and every graph on <= 3 nodes with self-loops, with all queries; the <= 3 node families (empty string, Link/CompositeLink, "
+        "and r/R x A/a over the node ids a/ab/A - every labelled graph) run on the shared and on the disjoint store")
 
 ABS_REL = ["r", "s", "t"]
 ABS_CLS = ["A", "B", "C"]
@@ -51,6 +59,13 @@ FIM_CLS = ["NetworkNode", "Component", "NetworkService", "ConnectionPoint", "Lin
 # text-containment test in the implementation (`in` on a str, startswith, a regex) shows as a difference
 SUB_REL = ["x", "xx", ""]
 SUB_CLS = ["A", "AB", ""]
+# names that differ only in letter case or in surrounding white space (a .lower() / .strip() / casefold normalisation shows)
+CASE_REL = ["has", "Has", "has "]
+CASE_CLS = ["Link", "link", " Link"]
+# node ids and graph ids related by containment / prefix / suffix / case / white space / emptiness: `_find_node` and the hop
+# test compare ids by equality
+SUB_IDS = ["a", "ab", "abc", "b", "ba", "bab", "A", "Ab", "aa", "n1", "n11", "n", "N1", "", "a ", " a", "c", "bc"]
+SUB_GIDS = [["g", "g1", "g11"], ["G", "g", "gg"], ["", "g", "g "], ["ab", "b", "a"]]
 
 
 def real_alphabet():
@@ -73,7 +88,44 @@ def related_names(names):
     for x in names[:3]:
         out += [x + x[-1:] if x else "q", x[:-1] if len(x) > 1 else x + "_", x[1:] if len(x) > 1 else "_" + x]
     out += ["".join(names[:2]), ""]
+    for x in names[:2]:
+        out += [x.swapcase(), x + " ", x.upper() if x != x.upper() else x.lower()]
     return [y for y in dict.fromkeys(out) if y not in names]
+
+
+class IdNamer:
+    """Consistent renaming of the generators' node ids (n0, n1, ..., o1, m1, ...) into an id alphabet whose members are
+    related by containment / prefix / suffix / case / white space (or left as they are)."""
+
+    def __init__(self, rng, style=None):
+        k = rng.random()
+        self.style = style or ("plain" if k < 0.55 else "sub")
+        self.pool = list(SUB_IDS)
+        rng.shuffle(self.pool)
+        # a few of the closely related ones first, so that small graphs get them too
+        head = rng.choice([["a", "ab", "A"], ["n1", "n11", "n"], ["b", "ba", "bab"], ["", "a", "a "], ["ab", "b", "a"]])
+        self.pool = head + [x for x in self.pool if x not in head]
+        self.map = {}
+
+    def __call__(self, i):
+        if self.style == "plain":
+            return i
+        if i not in self.map:
+            self.map[i] = self.pool.pop(0) if self.pool else i
+        return self.map[i]
+
+    def graph(self, g):
+        nodes, links = g
+        return [(self(i), c) for i, c in nodes], [(self(a), r, self(b)) for a, r, b in links]
+
+
+def graph_ids(rng, n, prefix):
+    """graph ids of a store: plain (g0, g1, ...) or related by containment / case / emptiness"""
+    if rng.random() < 0.6:
+        return ["%s%d" % (prefix, i) for i in range(n)]
+    ids = list(rng.choice(SUB_GIDS))
+    rng.shuffle(ids)
+    return ids[:n]
 
 
 def pick_alphabet(rng):
@@ -85,8 +137,10 @@ def pick_alphabet(rng):
     if k < 0.42:
         # the containment-related subset of the real constants, on arbitrary shapes
         return ["has", "connects", "depends"], ["Link", "CompositeLink", "NetworkNode", "CompositeNode", "Component"], False
-    if k < 0.70:
+    if k < 0.62:
         return (SUB_REL, SUB_CLS, False) if rng.random() < 0.6 else (SUB_REL[:2], SUB_CLS[:2], False)
+    if k < 0.74:
+        return (CASE_REL, CASE_CLS, False) if rng.random() < 0.6 else (CASE_REL[:2], CASE_CLS[:2], False)
     return (ABS_REL, ABS_CLS, False) if rng.random() < 0.5 else (ABS_REL[:2], ABS_CLS[:2], False)
 
 
@@ -243,7 +297,11 @@ def gen_case(rng, max_nodes):
         if len(ng[0]) > 1:
             ng[1].append((own, rng.choice(rels), ng[0][0][0]))
         graphs.append(ng)
+    namer = IdNamer(rng)
+    graphs = [namer.graph(g) for g in graphs]
     case = make_case(rng, graphs)
+    case["graphs"] = graph_ids(rng, len(graphs), "g")
+    case["ids"] = namer.style
     case["target"] = rng.randrange(len(graphs)) if rng.random() < 0.3 else 0
     case["alphabet"] = [rels, clss]
     nodes, _ = case_views(case)
@@ -275,7 +333,9 @@ def special_hop_lists(view, a, z, ids, other_ids, rng=None):
             if inner:
                 sh = inner[1:] + inner[:1] if rng is None else rng.sample(inner, len(inner))
                 out += [inner, inner[::-1], sh, inner + inner[:1], inner + inner[::-1]]
-    foreign = ["nope"] + list(other_ids[:1])
+    # ids that are not nodes of this graph: unknown, a node of another graph in the store, and ids that contain / are contained
+    # in / differ by case or white space from a node of this graph
+    foreign = ["nope"] + list(other_ids[:1]) + [y for y in related_names([a] + mids[:1] + [z]) if y not in ids][:3 if rng is None else 2]
     for f in foreign:
         out += [[f], [f, f]] + ([[mids[0], f], [f, mids[0]]] if mids else [[a, f]])
     seen, res = set(), []
@@ -298,6 +358,8 @@ def all_queries(view, rels, clss, rng=None, budget=None, hops_full=False, other_
             rest = list(clss)[5:]
             C = list(clss)[:5] + rng.sample(rest, min(2, len(rest))) + C[len(clss):]
     N = ids + ["nope"]
+    if budget is not None:
+        N += related_names(ids)[:3]
     qs = []
     for n in N:
         for r in R:
@@ -339,13 +401,10 @@ def all_queries(view, rels, clss, rng=None, budget=None, hops_full=False, other_
         for r in rels[:2]:
             for pc in (clss if len(clss) <= 5 else list(clss)[:4] + [c]):
                 helpers.append(["parent", n, r, pc])
-        if c == "ConnectionPoint":
-            helpers.append(["peer", n])
-            helpers.append(["childcps", n])
-        if c in ("NetworkNode", "Component", "CompositeNode"):
-            helpers.append(["nodecps", n])
-        if c in ("Link", "NetworkService"):
-            helpers.append(["linkcps", n])
+        # the gated helpers on nodes of every class: outside its domain (and only there) a helper raises.  CompositeLink
+        # is not Link, CompositeNode is admitted next to NetworkNode - whole-name membership in the label list
+        for h in ("peer", "childcps", "nodecps", "linkcps"):
+            helpers.append([h, n])
     if budget is None:
         return qs + two + sp + hops + hops2 + helpers
     out = []
@@ -382,11 +441,17 @@ def exhaustive_cases(max_n=4, loops_n=3, rels=("x", "xx"), clss=("A", "AB"), emp
     string as a relation and as a class, and with the real constants Link / CompositeLink."""
     yield from exhaustive_family(max_n, loops_n, rels, clss)
     if empty_n:
-        yield from exhaustive_family(empty_n, 0, ("", "x"), ("", "A"))
-        yield from exhaustive_family(empty_n, 0, ("connects", "has"), ("Link", "CompositeLink"))
+        # the small families run on both stores; the last one has names that differ in case only and node ids related by
+        # containment / case (every labelled graph: those ids are not interchangeable)
+        for fam in (dict(rels=("", "x"), clss=("", "A")),
+                    dict(rels=("connects", "has"), clss=("Link", "CompositeLink")),
+                    dict(rels=("r", "R"), clss=("A", "a"), ids=("a", "ab", "A"), dedup=False)):
+            for c in exhaustive_family(min(empty_n, len(fam["ids"])) if "ids" in fam else empty_n, 0, **fam):
+                yield c
+                yield dict(c, backend="disjoint")
 
 
-def exhaustive_family(max_n, loops_n, rels, clss):
+def exhaustive_family(max_n, loops_n, rels, clss, ids=None, dedup=True):
     """Every graph on <= max_n nodes over the given relations x classes, up to isomorphism; then every graph on
     <= loops_n nodes that has at least one self-loop.  A second graph with the same ids and swapped relations shares the store."""
     swap = {rels[0]: rels[1], rels[1]: rels[0]}
@@ -398,17 +463,18 @@ def exhaustive_family(max_n, loops_n, rels, clss):
                 if n <= loops_n:
                     loopsets += [l for l in itertools.product(range(len(rels) + 1), repeat=n) if any(l)]
                 for loops in loopsets:
-                    if not iso_canonical(n, edges, classes, loops):
+                    if dedup and not iso_canonical(n, edges, classes, loops):
                         continue
-                    nodes = [("n%d" % i, clss[classes[i]]) for i in range(n)]
-                    links = [("n%d" % a, rels[e - 1], "n%d" % b) for (a, b), e in zip(pairs, edges) if e]
+                    nm = (lambda i: ids[i]) if ids else (lambda i: "n%d" % i)
+                    nodes = [(nm(i), clss[classes[i]]) for i in range(n)]
+                    links = [(nm(a), rels[e - 1], nm(b)) for (a, b), e in zip(pairs, edges) if e]
                     if loops:
-                        links += [("n%d" % i, rels[l - 1], "n%d" % i) for i, l in enumerate(loops) if l]
+                        links += [(nm(i), rels[l - 1], nm(i)) for i, l in enumerate(loops) if l]
                     noise = ([(i, clss[1 - clss.index(c)]) for i, c in nodes], [(a, swap[r], b) for a, r, b in links])
                     ops = []
                     for (i, c), (j, d) in zip(nodes, noise[0]):
                         ops += [[0, "n", i, c], [1, "n", j, d]]
-                    ops += [[1, "n", "o1", clss[0]], [1, "l", "o1", rels[0], "n0"]]
+                    ops += [[1, "n", "o1", clss[0]], [1, "l", "o1", rels[0], nm(0)]]
                     for (a, r, b), (a2, r2, b2) in zip(links, noise[1]):
                         ops += [[1, "l", a2, r2, b2], [0, "l", a, r, b]]
                     yield {"graphs": ["g0", "g1"], "ops": ops, "target": 0, "alphabet": [list(rels), list(clss)]}
@@ -416,6 +482,19 @@ def exhaustive_family(max_n, loops_n, rels, clss):
 
 # --------------------------------------------------------------------------
 # the implementation
+
+
+class BuildFailed(Exception):
+    """a valid add_node / add_link of a generated case raised (e.g. a node lookup that matches a related id as well)"""
+
+    def __init__(self, k, kind):
+        Exception.__init__(self, "op %d raised %s" % (k, kind))
+        self.k, self.kind = k, kind
+
+
+def build_payload(case, b):
+    return {"graphs": case["graphs"], "ops": case["ops"][:b.k + 1], "target": case["ops"][b.k][0], "query": ["build"],
+            "backend": case.get("backend", "shared")}
 
 
 def build_impl(case):
@@ -431,12 +510,15 @@ def build_impl(case):
         NetworkXGraphStorage.storage_instance = None
         imp = NetworkXGraphImporter()
         gs = [NetworkXPropertyGraph(graph_id=g, importer=imp) for g in case["graphs"]]
-    for op in case["ops"]:
+    for k, op in enumerate(case["ops"]):
         g = gs[op[0]]
-        if op[1] == "n":
-            g.add_node(node_id=op[2], label=op[3], props={"Name": "name-" + op[2]})
-        else:
-            g.add_link(node_a=op[2], rel=op[3], node_b=op[4])
+        try:
+            if op[1] == "n":
+                g.add_node(node_id=op[2], label=op[3], props={"Name": "name-" + op[2]})
+            else:
+                g.add_link(node_a=op[2], rel=op[3], node_b=op[4])
+        except Exception as e:      # generated cases only contain valid operations (ids distinct per graph, link ends exist)
+            raise BuildFailed(k, err_kind(e))
     return gs
 
 
@@ -472,14 +554,7 @@ def impl_query(g, q):
 
 def lean_query(q):
     """The model request that corresponds to an implementation call (derived helpers are their definitions)."""
-    op = q[0]
-    if op == "peer":
-        return ["second", q[1], "connects", "Link", "connects", "ConnectionPoint"]
-    if op == "nodecps":
-        return ["second", q[1], "has", "NetworkService", "connects", "ConnectionPoint"]
-    if op in ("linkcps", "childcps"):
-        return ["fn", q[1], "connects", "ConnectionPoint"]
-    return q
+    return q        # the derived helpers are operations of the model (gate and constants regenerated from the source)
 
 
 # --------------------------------------------------------------------------
@@ -531,6 +606,39 @@ def canon_reply(q, rep):
     return rep
 
 
+def name_related(x, y):
+    """different names of which one contains the other, or that differ only in case / surrounding white space"""
+    return (isinstance(x, str) and isinstance(y, str) and x != y
+            and (x in y or y in x or x.lower() == y.lower() or x.strip() == y.strip()))
+
+
+def related_tags(view, q):
+    """Which argument of q is *not* equal to, but textually related to, a name the answer depends on: evidence that a
+    containment / prefix / case-insensitive comparison anywhere in the query code would have changed this answer's inputs."""
+    op, out = q[0], set()
+    ids = list(view.cls)
+    for n in ([q[1]] if op in ("fn", "two", "parent") else [q[1], q[2]] if op in ("sp", "hops") else []):
+        if n not in view.cls and any(name_related(n, i) for i in ids):
+            out.add("node-id")
+    if op in ("fn", "two", "parent") and q[1] in view.cls:
+        n = q[1]
+        rels = {view.r(n, m) for m in view.adj[n]}
+        clss = {view.cls[m] for m in view.adj[n]}
+        if op == "two":
+            for m in view.adj[n]:
+                rels |= {view.r(m, k) for k in view.adj[m]}
+                clss |= {view.cls[k] for k in view.adj[m]}
+        if any(name_related(r, x) for r in (q[2:3] + q[4:5] if op == "two" else q[2:3]) for x in rels):
+            out.add("relation")
+        if any(name_related(c, x) for c in (q[3:4] + q[5:6] if op == "two" else q[3:4]) for x in clss):
+            out.add("class")
+    if op == "sp" and q[3] is not None and any(name_related(q[3], x) for x in set(view.rel.values())):
+        out.add("sp-relation")
+    if op == "hops" and any(name_related(h, i) for h in q[3] for i in ids):
+        out.add("hop")
+    return out
+
+
 def nontrivial(view, q, rep):
     if rep[0] == "ok" and rep[1]:
         return True
@@ -578,7 +686,11 @@ def run_cases(ctx, res, cases, budget, tag, hops_full=False, judge=False):
         view = View(nodes[t], links[t])
         rels, clss = case["alphabet"]
         qs = all_queries(view, rels, clss, rng, budget, hops_full, foreign_ids(nodes, t))
-        gs = build_impl(case)
+        try:
+            gs = build_impl(case)
+        except BuildFailed as b:
+            res.disagreements.append({"case": build_payload(case, b), "impl": ["err", b.kind], "model": "valid operation", "why": "build-raises"})
+            continue
         impl = [impl_query(gs[t], q) for q in qs]
         lines.append(json.dumps(["g", [list(x) for x in nodes[t]], [list(x) for x in links[t]], [lean_query(q) for q in qs] + [["wf"]]]))
         meta.append((case, view, qs, impl))
@@ -597,6 +709,11 @@ def run_cases(ctx, res, cases, budget, tag, hops_full=False, judge=False):
             res.evaluations += 1
             res.count("op:" + q[0])
             res.count("backend:" + case.get("backend", "shared"))
+            res.count("ids:" + case.get("ids", "plain"))
+            for t in related_tags(view, q):
+                res.count("related-name:" + t)
+            if q[0] in HELPER_DOMAIN:
+                res.count("helper-domain:" + ("inside" if view.cls.get(q[1]) in HELPER_DOMAIN[q[0]] else "outside"))
             if i[0] == "err":
                 res.count("err:" + i[1])
             elif q[0] in ("sp", "hops"):
@@ -630,6 +747,15 @@ def corner_cases():
            [["connects", "connect", ""], ["Link", "CompositeLink", "ConnectionPoint", "", "Composite"]]),
         mk([([("a", "A"), ("b", "AB"), ("c", ""), ("d", "A")], [("a", "x", "b"), ("a", "xx", "c"), ("a", "", "d"), ("b", "xx", "d"), ("c", "x", "d")])],
            [SUB_REL, SUB_CLS]),
+        # node ids that contain one another / differ in case / are empty: the hop `ab` is not on a - abc - b; `A` is not `a`
+        mk([([("a", "A"), ("ab", "A"), ("abc", "B"), ("b", "B"), ("A", "A"), ("", "B")],
+             [("a", "x", "abc"), ("abc", "x", "b"), ("a", "xx", "ab"), ("ab", "x", "A"), ("", "x", "A")]),
+            ([("a", "B"), ("ab", "B"), ("bc", "A")], [("a", "xx", "bc"), ("bc", "x", "ab")])],
+           [["x", "xx"], ["A", "B"]]),
+        # names that differ only in case / white space
+        mk([([("a", "Link"), ("b", "link"), ("c", "LINK"), ("d", " Link"), ("e", "Link")],
+             [("a", "has", "b"), ("a", "Has", "c"), ("a", "has ", "d"), ("a", "has", "e"), ("b", "Has", "e"), ("c", "has", "e"), ("d", "HAS", "e")])],
+           [["has", "Has", "has ", "HAS"], ["Link", "link", "LINK", " Link"]]),
         mk([([("a", "A"), ("b", "B"), ("c", "A"), ("d", "B")], [("a", "r", "b"), ("b", "s", "c"), ("c", "r", "d")])]),
         mk([([("a", "A")], [])]),
         mk([([("a", "A"), ("b", "B")], [("a", "r", "b"), ("b", "s", "a")]), ([("a", "B"), ("b", "A")], [("a", "s", "b")])]),
@@ -640,9 +766,21 @@ def corner_cases():
     ]
 
 
+def both_backends(cases):
+    """every case on the shared store and on the disjoint one (a graph without nodes: shared only - the two stores raise
+    different errors for it, see gen_case)"""
+    out = []
+    for c in cases:
+        out.append(c)
+        nodes, _ = case_views(c)
+        if nodes[c["target"]] and c.get("backend") != "disjoint":
+            out.append(dict(c, backend="disjoint"))
+    return out
+
+
 def correspondence(ctx, res):
     rng = ctx.sub_rng("corr")
-    run_cases(ctx, res, corner_cases(), None, "corner", hops_full=True)
+    run_cases(ctx, res, both_backends(corner_cases()), None, "corner", hops_full=True)
     n = ctx.scale(110, 900)
     cases = [gen_case(rng, rng.choice([2, 3, 4, 5, 6, 7])) for _ in range(n)]
     run_cases(ctx, res, cases, ctx.scale(110, 200), "random")
@@ -657,6 +795,11 @@ def correspondence(ctx, res):
 
 # --------------------------------------------------------------------------
 # the property itself, on the implementation
+
+
+# the documented domains of the gated helpers (the harness's own copy; the model's comes from the translator)
+HELPER_DOMAIN = {"linkcps": ("Link", "NetworkService"), "childcps": ("ConnectionPoint",),
+                 "nodecps": ("NetworkNode", "Component", "CompositeNode")}
 
 
 def classify_extra_pair(view, n, q, m, k):
@@ -769,6 +912,14 @@ def check_query(view, case, q, rep, res, cc=None):
             if rep != ["ok", exp]:
                 bad("get_parent:" + ("raises:" + rep[1] if rep[0] == "err" else "wrong"), "get_parent is not the unique neighbour of that relation/class", expected=exp, observed=rep)
             return
+        gate = HELPER_DOMAIN.get(op)
+        if gate is not None and view.cls.get(n) not in gate:
+            # outside the helper's domain ("Node type is not ..."): the documented answer is the query exception
+            if rep != ["err", "query"]:
+                bad("%s:outside-domain:%s" % (op, "answers" if rep[0] == "ok" else "raises:" + rep[1]),
+                    "derived helper asked about a node of class %r, which is not one of %s: PropertyGraphQueryException expected"
+                    % (view.cls.get(n), list(gate)), expected=["err", "query"], observed=rep)
+            return
         r1, c1, r2, c2 = {"peer": ("connects", "Link", "connects", "ConnectionPoint"),
                           "nodecps": ("has", "NetworkService", "connects", "ConnectionPoint")}.get(op, (None,) * 4)
         if r1:
@@ -831,7 +982,7 @@ class MView:
 
 def rand_query(mv, rels, clss, rng, foreign):
     ids = mv.ids()
-    n = lambda: rng.choice(ids) if ids and rng.random() < 0.93 else "nope"
+    n = lambda: rng.choice(ids) if ids and rng.random() < 0.9 else rng.choice(["nope", "nope"] + related_names(ids)[:4])
     R, C = list(rels), list(clss)
     k = rng.random()
     if k < 0.22:
@@ -882,7 +1033,8 @@ def apply_step(mvs, wrappers, st):
 def gen_history(rng, max_nodes):
     rels, clss, fim = pick_alphabet(rng)
     ng = rng.choice([1, 2, 2, 3])
-    graphs = ["h%d" % i for i in range(ng)]
+    graphs = graph_ids(rng, ng, "h")
+    namer = IdNamer(rng)
     # two or three wrapper objects for graph 0, one or two for the others
     wrappers = [0, 0] + ([0] if rng.random() < 0.3 else [])
     for g in range(1, ng):
@@ -894,7 +1046,7 @@ def gen_history(rng, max_nodes):
 
     def fresh_id():
         counter[0] += 1
-        return "m%d" % counter[0]
+        return namer("m%d" % counter[0])
 
     def push(st):
         steps.append(st)
@@ -902,7 +1054,7 @@ def gen_history(rng, max_nodes):
     # initial graphs, built through randomly chosen wrappers, interleaved
     init = []
     for g in range(ng):
-        nodes, links = gen_graph(rng, max_nodes, rels, clss, "fim" if fim and rng.random() < 0.6 else rng.choice(["sparse", "dense", "chain"]))
+        nodes, links = namer.graph(gen_graph(rng, max_nodes, rels, clss, "fim" if fim and rng.random() < 0.6 else rng.choice(["sparse", "dense", "chain"])))
         init.append([["n", None, i, c] for i, c in nodes] + [["l", None, a, r, b] for a, r, b in links])
     idx = [0] * ng
     live = [g for g in range(ng) if init[g]]
@@ -943,7 +1095,7 @@ def gen_history(rng, max_nodes):
             push(["q", w, q])
         if rng.random() < 0.3:
             push(["q", rng.choice(ws), rand_query(mvs[g], rels, clss, rng, foreign(g))])
-    case = {"kind": "history", "graphs": graphs, "wrappers": wrappers, "steps": steps, "alphabet": [rels, clss]}
+    case = {"kind": "history", "graphs": graphs, "wrappers": wrappers, "steps": steps, "alphabet": [rels, clss], "ids": namer.style}
     if rng.random() < 0.25:
         case["backend"] = "disjoint"
     return case
@@ -1076,6 +1228,9 @@ def run_histories(ctx, res, cases):
         m = json.loads(rl)
         res.evaluations += 1
         res.count("history-op:" + q[0])
+        res.count("ids:" + case.get("ids", "plain"))
+        for t in related_tags(view, q):
+            res.count("related-name:history:" + t)
         res.count("history:" + tag)
         res.count("backend:" + case.get("backend", "shared"))
         if m[0] != "ok" or m[1][-1] != ["ok", True]:
@@ -1107,7 +1262,13 @@ def oracle_cases(ctx, res, cases, budget, tag, hops_full=False):
         view = View(nodes[t], links[t])
         rels, clss = case["alphabet"]
         qs = case.get("queries") or all_queries(view, rels, clss, rng, budget, hops_full, foreign_ids(nodes, t))
-        gs = build_impl(case)
+        try:
+            gs = build_impl(case)
+        except BuildFailed as b:
+            res.evaluations += 1
+            res.violation("C06:build:raises:" + b.kind, "a valid add_node/add_link of the case raised: the graph the queries are asked on cannot be built",
+                          build_payload(case, b), observed=["err", b.kind])
+            continue
         vc = None
         for q in qs:
             rep = impl_query(gs[t], q)
@@ -1153,7 +1314,7 @@ def corpus_cases():
 
 def oracle(ctx, res, n=None, budget=None, hist_n=None):
     oracle_cases(ctx, res, corpus_cases(), None, "corpus")
-    oracle_cases(ctx, res, corner_cases(), None, "corner", hops_full=True)
+    oracle_cases(ctx, res, both_backends(corner_cases()), None, "corner", hops_full=True)
     rng = ctx.sub_rng("oracle")
     n = n or ctx.scale(250, 2500)
     cases = [gen_case(rng, rng.choice([2, 3, 4, 5, 6, 7])) for _ in range(n)]
@@ -1193,8 +1354,15 @@ def replay(ctx, payload):
     t = case["target"]
     view = View(nodes[t], links[t])
     r = Result()
-    gs = build_impl(case)
+    try:
+        gs = build_impl(case)
+    except BuildFailed as b:
+        print("   building the case: %s" % b)
+        return True
     q = case["query"]
+    if q == ["build"]:
+        print("   the case builds")
+        return False
     rep = impl_query(gs[t], q)
     check_query(view, case, q, rep, r)
     print("   query %s -> %s" % (q, rep))
